@@ -569,8 +569,9 @@ func genLarge(t *rapid.T) largeCase {
 	c.Dups = rapid.SampledFrom([]int{0, 0, 1, 3, 17}).Draw(t, "dups")
 
 	// the size aimed at: octets of the canonical records (or of the whole signed data)
+	// (inside the coverage-guided layer the sizes of the quick tier are used: one input has 10 s there, see exhaustive)
 	maxN := largeMaxQuick
-	if pbt.Thorough() {
+	if exhaustive() {
 		maxN = largeMaxThorough
 	}
 	var target int
@@ -587,7 +588,11 @@ func genLarge(t *rapid.T) largeCase {
 	case k == 7:
 		target = rapid.IntRange(16000, 65000).Draw(t, "below")
 	default:
-		target = rapid.IntRange(140000, 400000).Draw(t, "far")
+		far := 400000
+		if exhaustive() {
+			far = 1 << 20
+		}
+		target = rapid.IntRange(140000, far).Draw(t, "far")
 	}
 	roundUp := rapid.Bool().Draw(t, "roundup")
 	// octets of one canonical record (NS / MX: of the first few, their names differ in length)
@@ -636,5 +641,10 @@ func genLarge(t *rapid.T) largeCase {
 }
 
 func init() {
-	pbt.Register(pbt.Sub[largeCase]{Name: "large-rrset", Weight: 0.1, Gen: genLarge, Check: checkLarge})
+	// quick: 30 sets per run; thorough: 80 per shard (sets of up to 4000 records, up to 1 MiB of signed data)
+	w := 0.1
+	if pbt.Thorough() {
+		w = 0.04
+	}
+	pbt.Register(pbt.Sub[largeCase]{Name: "large-rrset", Weight: w, Gen: genLarge, Check: checkLarge})
 }
